@@ -302,7 +302,7 @@ package account
 
 // SetData journals the previous content of the slot (what GetData answers) unless the write changes nothing.
 //@ func accountObject.SetData
-//@   property C04
+//@   property C04 C12
 //@   requires ao != nil
 //@   requires [object!init] ao.cachedStorage != nil && ao.dirtyStorage != nil && ao.db != nil
 //@   ensures [stor]    ghost(stor) == @store(old(ghost(stor)), ref(ao), @store(@select(old(ghost(stor)), ref(ao)), old(bytes(key)), old(bytes(value))))
